@@ -36,6 +36,10 @@ class Stepper:
             return bool(e.value)
         if isinstance(e, ast.IfExp):
             return self.truth(e.body) if self.truth(e.test) else self.truth(e.orelse)
+        if isinstance(e, ast.Compare) and len(e.ops) == 1 and isinstance(e.ops[0], (ast.Is, ast.IsNot)) \
+                and isinstance(e.left, ast.Constant) and isinstance(e.comparators[0], ast.Constant):
+            same = e.left.value is e.comparators[0].value
+            return same if isinstance(e.ops[0], ast.Is) else not same
         if isinstance(e, ast.Call) and isinstance(e.func, ast.Name) and e.func.id == "isinstance" and len(e.args) == 2:
             tl = self.resolve(e.args[1])
             if isinstance(tl, ast.Tuple):
